@@ -95,6 +95,7 @@ type explorer struct {
 	pruned   int
 }
 
+//go:norace
 func mix64(a, b uint64) uint64 {
 	h := a ^ (b + 0x9e3779b97f4a7c15 + (a << 6) + (a >> 2))
 	h ^= h >> 33
@@ -105,6 +106,8 @@ func mix64(a, b uint64) uint64 {
 
 // transitionKey identifies "take alternative alt in the happens-before state of point p
 // with the given budgets already spent".
+//
+//go:norace
 func transitionKey(p vrt.Point, alt, pre, dev int) uint64 {
 	ak := uint64(alt) + 0xa17
 	if p.Kind == vrt.SchedPoint && alt < len(p.AltKeys) {
@@ -116,6 +119,8 @@ func transitionKey(p vrt.Point, alt, pre, dev int) uint64 {
 }
 
 // RunOnce runs one execution of sc with the given choice prefix.
+//
+//go:norace
 func RunOnce(sc *Scenario, prefix []int) (*vrt.Exec, []Finding) {
 	x := vrt.NewExec(prefix)
 	if sc.Setup != nil {
@@ -139,6 +144,8 @@ func RunOnce(sc *Scenario, prefix []int) (*vrt.Exec, []Finding) {
 }
 
 // panicSite extracts the first repository frame of a stack.
+//
+//go:norace
 func panicSite(stk string) string {
 	lines := strings.Split(stk, "\n")
 	for _, l := range lines {
@@ -158,6 +165,8 @@ var journalFile *os.File
 
 // writeJournal overwrites the journal record in place (one pwrite per execution): a
 // fixed-width length followed by JSON.
+//
+//go:norace
 func writeJournal(scenario string, prefix []int) {
 	if journalFile == nil {
 		f, err := os.OpenFile(journalPath, os.O_CREATE|os.O_RDWR, 0o644)
@@ -171,6 +180,7 @@ func writeJournal(scenario string, prefix []int) {
 	journalFile.WriteAt(rec, 0)
 }
 
+//go:norace
 func readJournal(path string) []byte {
 	data, err := os.ReadFile(path)
 	if err != nil || len(data) < 8 {
@@ -183,6 +193,7 @@ func readJournal(path string) []byte {
 	return data[8 : 8+n]
 }
 
+//go:norace
 func ownerOf(prefix []int, shards int) int {
 	h := fnv.New32a()
 	for _, c := range prefix {
@@ -191,6 +202,7 @@ func ownerOf(prefix []int, shards int) int {
 	return int(h.Sum32() % uint32(shards))
 }
 
+//go:norace
 func costs(points []vrt.Point, upto int) (pre, dev int) {
 	for i := 0; i < upto && i < len(points); i++ {
 		p := points[i]
@@ -204,6 +216,7 @@ func costs(points []vrt.Point, upto int) (pre, dev int) {
 	return
 }
 
+//go:norace
 func (e *explorer) explore(prefix []int, depth int) {
 	if e.stop {
 		return
@@ -311,6 +324,8 @@ func (e *explorer) explore(prefix []int, depth int) {
 }
 
 // exploreScenario runs the iterative bounding for one scenario in this shard.
+//
+//go:norace
 func exploreScenario(sc *Scenario, shard, shards int, deadline time.Time) result {
 	st := Stats{Outcomes: map[string]int{}, BoundDone: -1}
 	e := &explorer{sc: sc, shard: shard, shards: shards, split: 2, stats: &st, viol: map[string]*Violation{}, deadline: deadline}
@@ -345,6 +360,8 @@ func exploreScenario(sc *Scenario, shard, shards int, deadline time.Time) result
 
 // Main is the entry point of every E1 check binary: parent mode spawns one worker
 // process per shard and merges; worker mode explores its share and prints JSON lines.
+//
+//go:norace
 func Main(run *evid.Run, scenarios []*Scenario, budget time.Duration) {
 	if s := os.Getenv("VERIF_SHARD"); s != "" {
 		parts := strings.Split(s, "/")
@@ -547,6 +564,7 @@ func Main(run *evid.Run, scenarios []*Scenario, budget time.Duration) {
 	run.Set("explanation", "states = complete executions of the real (instrumented) code checked by the oracle, one per distinct schedule within the preemption/deviation bounds; transitions = scheduling points executed; every trace is an implementation trace")
 }
 
+//go:norace
 func lastLines(s string, n int) string {
 	lines := strings.Split(strings.TrimSpace(s), "\n")
 	for i, l := range lines {
@@ -563,6 +581,7 @@ func lastLines(s string, n int) string {
 	return strings.Join(lines, " | ")
 }
 
+//go:norace
 func replay(run *evid.Run, scenarios []*Scenario, file string) {
 	data, err := os.ReadFile(file)
 	if err != nil {
